@@ -19,10 +19,29 @@ func init() {
 	foOracles["C09"] = (*foRun).oracleC09
 	foOracles["C18"] = (*foRun).oracleC18
 
-	gens["C02"] = func(r *rand.Rand, _ int, _ string) *Scenario {
-		sc := genFOBase(r, foShape{minClients: 1, maxClients: 6, maxKeys: 3, maxOps: 4, sleeps: true, skipRead: true, faults: true, ctxTTL: false})
+	gens["C02"] = func(r *rand.Rand, run int, _ string) *Scenario {
+		if run%2 == 1 {
+			// Families of c02Sweep runs share one small scenario; the fault position sweeps over
+			// every backend call ordinal: Read ordinals 0..7, then Write ordinals 0..7.
+			slot := run / 2
+			pos := slot % c02Sweep
+			rf := newRng(genSeed, uint64(slot/c02Sweep), 202)
+			sc := genFOBase(rf, foShape{minClients: 1, maxClients: 3, maxKeys: 2, maxOps: 2, skipRead: true})
+			sc.FO.Faults = FOFaults{}
 
-		return sc
+			if pos < c02Sweep/2 {
+				sc.FO.Faults.ReadErrAt = []int{pos}
+			} else {
+				sc.FO.Faults.WriteErrAt = []int{pos - c02Sweep/2}
+			}
+
+			// the schedule still varies inside a family
+			sc.Sched = genSched(r, 60)
+
+			return sc
+		}
+
+		return genFOBase(r, foShape{minClients: 1, maxClients: 6, maxKeys: 3, maxOps: 4, sleeps: true, skipRead: true, faults: true, ctxTTL: false})
 	}
 	gens["C04"] = func(r *rand.Rand, _ int, _ string) *Scenario {
 		sc := genFOBase(r, foShape{minClients: 1, maxClients: 5, maxKeys: 3, maxOps: 4, sleeps: true, skipRead: true, faults: true, callerTricks: true})
@@ -34,6 +53,8 @@ func init() {
 	gens["C06"] = genC06
 	gens["C18"] = genC18
 }
+
+const c02Sweep = 16
 
 // --- helpers ------------------------------------------------------------------------------------
 
